@@ -1,5 +1,5 @@
 (** Props/C04.v — run/skip/swallow decide execution per iteration; in-arguments are step-scoped. *)
-From PV Require Import Engine EngineProofs Leaves GenProofs.
+From PV Require Import Engine EngineProofs Leaves GenProofs Ctl Control CtlProofs.
 Open Scope string_scope.
 Notation RG := (list val -> option string -> option string -> st -> R).
 Notation RP := (string -> option (list string) -> option (list val) -> option string -> option string -> st -> R).
@@ -109,6 +109,19 @@ Theorem C04_in_removed : forall (rg : RG) (rp : RP) sp s s' d k v,
   run_step rg rp sp s = (OOk, s') -> dict_get k (ctx s') = None.
 Proof. exact run_step_in_removed. Qed.
 Print Assumptions C04_in_removed.
+
+(** * Tie B: the decorator layer READ FROM THE SOURCE is [cond].
+    [gen_run_conditional_decorators] is generated on every run from the statements of
+    [Step.run_conditional_decorators] (pypyr/dsl.py): order of the run / skip / swallow evaluations,
+    the except ladder, which errors are recorded.  With the abstract primitives instantiated by the
+    model's body, retry loop, save_error and counter reset, it is [cond] for every step, counters
+    and state. *)
+Theorem C04_source_decorators_are_model : forall (rg : RG) (rp : RP) sp k s,
+  gen_run_conditional_decorators sp (run_body rp sp) rg (reset_prim sp k)
+    (fun rc => retry_loop rg rp rc sp k) (save_error_prim sp) s
+  = cond rg rp sp k s.
+Proof. exact gen_run_conditional_decorators_is_model. Qed.
+Print Assumptions C04_source_decorators_are_model.
 
 (** * Non-vacuity: run expression changes between foreach iterations *)
 Definition lib4 : library :=
